@@ -28,6 +28,7 @@ def run(ctx):
     r4_context(chk, fx)
     r5_simultaneous(chk, fx)
     r6_whole_message(chk, fx)
+    r7_hello_text_trimmed(chk, fx)
 
 
 def r1_advertised(chk, fx):
@@ -369,3 +370,21 @@ def whole_message_rule(chk, fx, rule, name, label):
 
 def r6_whole_message(chk, fx):
     whole_message_rule(chk, fx, "C12/R6", "netconf::message::ServerMsg::from_xml", "ServerMsg::from_xml")
+
+
+def r7_hello_text_trimmed(chk, fx):
+    """'.. if and only if the server's hello is well-formed ..': a hello whose <capability> URIs or <session-id> are surrounded by
+    white space (pretty-printed element content) is well-formed; refusing it is a failed establishment.  Same decision as C13/R5 (text
+    obtained with read_text reaches parse / FromStr only through trim), for the readers of the hello."""
+    from . import readers as R
+    n = 0
+    for r in R.text_uses(fx):
+        if not any(x in r["fn"] for x in ("::hello::", "::capabilities::")):
+            continue
+        n += 1
+        fn = R.short_fn(r["fn"])
+        bad = sorted({s[0] for s in r["untrimmed"]})
+        chk.instance("C12/R7", "%s: element text is trimmed before it is parsed" % fn, r["fn"], r["call"].loc(), holds=not bad,
+                     key="C12/R7 %s untrimmed-text -> %s" % (fn, ",".join(bad)),
+                     detail=None if not bad else "a hello with white space around the value is refused although it is well-formed")
+    chk.floor("C12/R7 text reads in the hello readers", n, 2)
